@@ -187,6 +187,20 @@ fn supervise(id: &str, args: &[String]) -> ! {
         }
     }
     cleanup(&journal);
+    // A death that no single input reproduces (state shared between cases or threads, memory that is not deterministic):
+    // the whole check is run again, at most twice. Only a run that ends with a reproducible violation counts; otherwise the
+    // unexplained death stands and the check is inconclusive.
+    let attempt: u32 = std::env::var("NLV_ATTEMPT").ok().and_then(|s| s.parse().ok()).unwrap_or(0);
+    if attempt < 2 {
+        eprintln!("the worker died but none of its recorded inputs reproduces it in a fresh process; running the check again (attempt {})", attempt + 2);
+        let st = std::process::Command::new(&exe).args(args).env("NLV_ATTEMPT", (attempt + 1).to_string()).env_remove("NLV_JOURNAL_DIR").status();
+        if let Ok(st) = st {
+            if st.code() == Some(1) {
+                std::process::exit(1);
+            }
+        }
+        std::process::exit(2)
+    }
     eprintln!("the worker died but none of its recorded inputs reproduces it in a fresh process (machinery failure)");
     std::process::exit(2)
 }
